@@ -172,53 +172,109 @@ fn calls_per_link(doc: &Doc) -> Vec<usize> {
     v
 }
 
-/// The complete document as RFC 6690 (and the writer's documentation) define
-/// it, rendered independently of the writer.
-fn reference_render(doc: &Doc) -> String {
-    let mut s = String::new();
-    let quoted = |s: &mut String, v: &str| {
-        s.push('"');
-        for c in v.chars() {
-            if c == '"' || c == '\\' {
-                s.push('\\');
-            }
-            s.push(c);
+/// What the document says, link by link: (target, [(key, value)]).
+fn doc_meaning(doc: &Doc) -> Vec<(String, Vec<(String, String)>)> {
+    doc.links
+        .iter()
+        .map(|(t, attrs)| {
+            (
+                t.clone(),
+                attrs
+                    .iter()
+                    .map(|a| match a {
+                        Attr::Plain(k, v) | Attr::Quoted(k, v) => (k.clone(), v.clone()),
+                        Attr::U32(k, v) => (k.clone(), v.to_string()),
+                        Attr::U16(k, v) => (k.clone(), v.to_string()),
+                    })
+                    .collect(),
+            )
+        })
+        .collect()
+}
+
+/// Reads link-format text back, independently of the crate and tolerant of
+/// every choice RFC 6690 leaves to the writer (quoting a value or not where
+/// both are valid, white space / line breaks after the link separator).
+/// "The output is complete" means: it reads back as the whole document.
+fn read_back(text: &str) -> Result<Vec<(String, Vec<(String, String)>)>, String> {
+    let c: Vec<char> = text.chars().collect();
+    let mut i = 0usize;
+    let mut links = Vec::new();
+    if c.is_empty() {
+        return Ok(links);
+    }
+    loop {
+        if c.get(i) != Some(&'<') {
+            return Err(format!("expected '<' at char {}", i));
         }
-        s.push('"');
-    };
-    for (i, (target, attrs)) in doc.links.iter().enumerate() {
-        if i > 0 {
-            s.push(',');
-            if doc.newlines {
-                s.push_str("\n\r");
+        i += 1;
+        let mut target = String::new();
+        loop {
+            match c.get(i) {
+                None => return Err("unterminated target".into()),
+                Some('>') => break,
+                Some(ch) => target.push(*ch),
             }
+            i += 1;
         }
-        s.push('<');
-        s.push_str(target);
-        s.push('>');
-        for a in attrs {
-            s.push(';');
-            match a {
-                Attr::Plain(k, v) => {
-                    s.push_str(k);
-                    s.push('=');
-                    if v.chars().all(|c| c.is_ascii_alphanumeric()) {
-                        s.push_str(v);
-                    } else {
-                        quoted(&mut s, v);
+        i += 1;
+        let mut attrs = Vec::new();
+        while c.get(i) == Some(&';') {
+            i += 1;
+            let mut key = String::new();
+            while let Some(ch) = c.get(i) {
+                if *ch == '=' {
+                    break;
+                }
+                key.push(*ch);
+                i += 1;
+            }
+            if c.get(i) != Some(&'=') {
+                return Err(format!("attribute {:?} without '='", key));
+            }
+            i += 1;
+            let mut val = String::new();
+            if c.get(i) == Some(&'"') {
+                i += 1;
+                loop {
+                    match c.get(i) {
+                        None => return Err("unterminated quoted value".into()),
+                        Some('"') => break,
+                        Some('\\') => {
+                            i += 1;
+                            match c.get(i) {
+                                None => return Err("dangling escape".into()),
+                                Some(ch) => val.push(*ch),
+                            }
+                        }
+                        Some(ch) => val.push(*ch),
                     }
+                    i += 1;
                 }
-                Attr::Quoted(k, v) => {
-                    s.push_str(k);
-                    s.push('=');
-                    quoted(&mut s, v);
+                i += 1;
+            } else {
+                while let Some(ch) = c.get(i) {
+                    if *ch == ';' || *ch == ',' {
+                        break;
+                    }
+                    val.push(*ch);
+                    i += 1;
                 }
-                Attr::U32(k, v) => s.push_str(&format!("{}={}", k, v)),
-                Attr::U16(k, v) => s.push_str(&format!("{}={}", k, v)),
             }
+            attrs.push((key, val));
+        }
+        links.push((target, attrs));
+        match c.get(i) {
+            None => return Ok(links),
+            Some(',') => {
+                i += 1;
+                while matches!(c.get(i), Some(' ') | Some('\n') | Some('\r') | Some('\t')) {
+                    i += 1;
+                }
+            }
+            Some(ch) => return Err(format!("unexpected {:?} after a link at char {}", ch, i)),
         }
     }
-    s
 }
 
 fn call_kind(s: &str) -> &'static str {
@@ -261,10 +317,37 @@ pub fn run(ch: &mut Ch, verbose: bool) -> Outcome {
     if full != clean.sink.calls.concat() {
         out.violations.push(Violation::new("C18", "ok-complete", "sink content differs from the concatenation of its calls".into()));
     }
-    let reference = reference_render(&doc);
-    if full != reference {
-        let at = full.bytes().zip(reference.bytes()).position(|(a, b)| a != b).unwrap_or(full.len().min(reference.len()));
-        out.violations.push(Violation::new("C18", "ok-complete", format!("fault-free output ({} bytes) is not the complete document ({} bytes); first difference at byte {} ({} links, newlines={})", full.len(), reference.len(), at, doc.links.len(), doc.newlines)).with_sig("incomplete"));
+    // a writer may percent-encode characters of a target that a URI reference
+    // cannot hold: the target then reads back after percent-decoding
+    let pct = |t: &str| -> Vec<u8> {
+        let b = t.as_bytes();
+        let mut o = Vec::new();
+        let mut i = 0;
+        while i < b.len() {
+            let hex = |x: u8| (x as char).to_digit(16);
+            if b[i] == b'%' && i + 2 < b.len() + 0 && hex(b[i + 1]).is_some() && hex(b[i + 2]).is_some() {
+                o.push((hex(b[i + 1]).unwrap() * 16 + hex(b[i + 2]).unwrap()) as u8);
+                i += 3;
+            } else {
+                o.push(b[i]);
+                i += 1;
+            }
+        }
+        o
+    };
+    let same = |m: &Vec<(String, Vec<(String, String)>)>| -> bool {
+        let d = doc_meaning(&doc);
+        m.len() == d.len() && m.iter().zip(d.iter()).all(|(a, b)| (a.0 == b.0 || pct(&a.0) == b.0.as_bytes()) && a.1 == b.1)
+    };
+    match read_back(&full) {
+        Ok(m) if same(&m) => {}
+        other => {
+            let why = match other {
+                Ok(m) => format!("it reads back as {} links", m.len()),
+                Err(e) => format!("it does not read back: {}", e),
+            };
+            out.violations.push(Violation::new("C18", "ok-complete", format!("fault-free output ({} bytes, {} links, newlines={}) is not the complete document: {}", full.len(), doc.links.len(), doc.newlines, why)).with_sig("incomplete"));
+        }
     }
     let per_link = calls_per_link(&doc);
     if verbose {
